@@ -14,6 +14,8 @@ for d in sorted(os.listdir("/verif/seeded")):
         res = "**detected**: " + ob
     elif m.get("check_exit_code") == 2:
         res = "undecided (exit 2): " + first.split(": ", 1)[-1][:110]
+    elif os.path.exists(os.path.join("/verif/seeded", d, "NEUTRALIZED.md")):
+        res = "no longer a violation on the repaired tree (exit 0 is right): " + open(os.path.join("/verif/seeded", d, "NEUTRALIZED.md")).read().strip().splitlines()[0][:140]
     else:
         res = "missed"
     rows.append("| %s | %s | %s | %s |" % (d, m["breaks_property"], m["needs_to_manifest"][:110], res))
